@@ -13,6 +13,7 @@ predicate   : the statement itself re-evaluated in Python on the public attribut
 from __future__ import annotations
 
 import hashlib
+import os
 import json
 import sys
 import warnings
@@ -105,6 +106,8 @@ def materialise(desc):
     import numpy as np
     import xarray as xr
 
+    if "skind" in desc:      # what another detector's bucket holds (a fresh copy), None when it is empty
+        return source_held(desc)
     form = desc["form"]
     if form == "ndarray":
         return _values(desc)
@@ -150,7 +153,7 @@ def lean_operand(desc):
     import numpy as np
     import xarray as xr
 
-    if desc["form"] == "pyint":
+    if "skind" not in desc and desc["form"] == "pyint":
         return {"t": "pyint", "v": int(desc["v"]), "id": desc["id"]}
     x = materialise(desc)
     if isinstance(x, xr.DataArray):
@@ -236,23 +239,64 @@ def gen_source(rng, ident, kind, rows, cols):
     if skind == "photon" and r < 0.45:
         d.update(form="dataarray", dims="std", coord=True, shape=[rng.choice([1, 2]), srows, scols])
     src["hold"] = d
+    if skind == "photon" and rng.random() < 0.5:
+        # the source bucket is filled validly, then a frame is added in place (no validation on a filled container)
+        src["then"] = dict(d, seed=rng.randrange(10**6), fill=rng.choice(["neg", "nanneg", "neg", "pos"]), dtype=rng.choice(FLOATS))
     return src
 
 
-def make_source(src):
+def make_source_detector(src):
+    """(detector, bucket): another detector whose bucket `skind` is empty or was filled through its own public setters
+    (`hold`), optionally followed by an in-place addition on the filled bucket (`then`, e.g. a frame with negative entries)"""
     import pyx
 
     sdet = pyx.make_detector(src["det"], src["rows"], src["cols"])
+    if src["skind"] == "phase" and src["det"] != "MKID":
+        return sdet, None
     c = getattr(sdet, src["skind"])
     if src["hold"] is not None:
         if src["hold"]["form"] == "dataarray":
             c.array_3d = materialise(src["hold"])
         else:
             c.array = materialise(src["hold"])
-    return c
+        if src.get("then") is not None:
+            c += materialise(src["then"])
+    return sdet, c
 
 
-def gen_ops(rng, kind, rows, cols, n, ids):
+def make_source(src):
+    return make_source_detector(src)[1]
+
+
+def source_held(src):
+    import xarray as xr
+
+    c = make_source(src)
+    if c is None or src["hold"] is None:
+        return None
+    x = c.array_3d if src["hold"]["form"] == "dataarray" else c.array
+    return x.copy(deep=True) if isinstance(x, xr.DataArray) else x.copy()
+
+
+def gen_file(rng, ident, det, kind, rows, cols):
+    """a detector saved to a file, to be given to `load_detector`: same / other detector type, same / other geometry"""
+    fdet = det if rng.random() < 0.75 else rng.choice([d for d in ("CCD", "CMOS", "APD", "MKID") if d != det])
+    frows, fcols = (rows, cols) if rng.random() < 0.55 else rng.choice([(cols, rows + 1), (rows + 1, cols), (rows, cols + 2)])
+    src = {"id": ident, "skind": kind, "rows": frows, "cols": fcols, "det": fdet, "hold": None}
+    if rng.random() < 0.2 or (kind == "phase" and fdet != "MKID"):
+        return src
+    d = {"id": ident, "seed": rng.randrange(10**6), "fill": rng.choice(["pos", "pos", "zero", "huge", "nan"]), "form": "ndarray",
+         "shape": [frows, fcols], "dtype": rng.choice(UINTS if kind == "image" else FLOATS)}
+    if d["dtype"] in UINTS and d["fill"] == "nan":
+        d["fill"] = "pos"
+    if kind == "photon" and rng.random() < 0.4:
+        # (a 3-D cube is written as nested lists: float16/32 cubes come back as float64 — C18's subject, not generated here)
+        d.update(form="dataarray", dims="std", coord=True, shape=[rng.choice([1, 2]), frows, fcols], dtype="float64")
+    src["hold"] = d
+    return src
+
+
+def gen_ops(rng, kind, rows, cols, n, ids, det="CCD"):
     ops = []
     for _ in range(n):
         w = [("set", 24), ("iadd", 26), ("update", 9), ("empty", 8), ("read", 12), ("dtype", 4), ("shape", 4)]
@@ -260,8 +304,12 @@ def gen_ops(rng, kind, rows, cols, n, ids):
             w += [("set3", 22), ("read3", 10)]
         w.append(("adopt", 7))
         w.append(("emptyAll", 8))
+        w.append(("load", 3))
         name = rng.choices([a for a, _ in w], [b for _, b in w])[0]
-        if name == "emptyAll":
+        if name == "load":
+            ids[0] += 1
+            ops.append(["load", gen_file(rng, ids[0], det, kind, rows, cols)])
+        elif name == "emptyAll":
             ops.append(["emptyAll", rng.random() < 0.5])   # detector.empty(reset)
         elif name == "adopt":
             ids[0] += 1
@@ -295,7 +343,7 @@ def gen_box(rng, ids, kind=None, shape=None, n=None):
         det = "MKID"
     rows, cols = shape or (rng.randint(1, 5), rng.randint(1, 5))
     n = rng.choice([1, 2, 3, 4, 6, 8, 12]) if n is None else n
-    return {"det": det, "kind": kind, "rows": rows, "cols": cols, "ops": gen_ops(rng, kind, rows, cols, n, ids),
+    return {"det": det, "kind": kind, "rows": rows, "cols": cols, "ops": gen_ops(rng, kind, rows, cols, n, ids, det),
             "plus": rng.random() < 0.2}
 
 
@@ -383,6 +431,21 @@ def apply_op(c, op, plus, det=None, kind=None):
                 c += materialise(op[1])
         elif name == "empty":
             c.empty()
+        elif name == "load":
+            import shutil
+            import tempfile
+
+            from pyxel.models import load_detector
+
+            tmp = tempfile.mkdtemp(prefix="c13load-")
+            try:
+                fdet, _ = make_source_detector(op[1])
+                path = os.path.join(tmp, "detector.asdf")
+                fdet.save(path)
+                load_detector(det, path)
+            finally:
+                c = getattr(det, kind)      # the buckets may have been replaced
+                shutil.rmtree(tmp, ignore_errors=True)
         elif name == "emptyAll":
             det.empty(op[1])          # Detector.empty / MKID.empty: acts on every bucket
             c = getattr(det, kind)
@@ -410,6 +473,8 @@ def run_box(box):
     res = []
     for op in box["ops"]:
         out, obs, c2 = apply_op(c, op, box.get("plus", False), det, box["kind"])
+        if c2 is not c and op[0] in ("load", "adopt", "emptyAll"):
+            c = c2          # detector-level operations may install another bucket object
         if c2 is not c:
             return res + [{"out": "ok", "obs": "returned-a-different-object", "state": snapshot(c2)}]
         res.append({"out": out, "obs": obs, "state": snapshot(c)})
@@ -530,10 +595,10 @@ def property_predicate(box, impl):
         why = state_ok(kind, rows, cols, st)
         if why:
             # the invariant breaks at this operation; everything later in this history is a consequence
-            bad.append((f"C13:invariant:{kind}.{name}" + ("" if name == "adopt" else (":empty" if prev is None else ":full")),
+            bad.append((f"C13:invariant:{kind}.{name}" + ("" if name in ("adopt", "load") else (":empty" if prev is None else ":full")),
                         f"after op #{i} {name} on a{'n empty' if prev is None else ' full'} {kind} container: {why}", i))
             break
-        assignment = name in ("set", "set3", "update", "adopt") or (name == "iadd" and prev is None)
+        assignment = name in ("set", "set3", "update", "adopt", "load") or (name == "iadd" and prev is None)
         if assignment and out != "ok" and st != prev:
             bad.append((f"C13:failed-assignment-changed-content:{kind}.{name}",
                         f"op #{i} {name} raised {out} but the content changed", i))
@@ -561,7 +626,7 @@ def property_predicate(box, impl):
         if out == "ok":
             if name in ("set", "iadd") or (name == "set3" and kind == "photon") or (name == "update" and op[1] is not None):
                 exp_empty = False
-            elif name == "adopt":
+            elif name in ("adopt", "load"):
                 exp_empty = op[1]["hold"] is None
             elif name == "empty":
                 exp_empty = kind != "pixel"
@@ -599,6 +664,8 @@ def final_container(box):
     c = getattr(det, box["kind"])
     for op in box["ops"]:
         _, _, c2 = apply_op(c, op, box.get("plus", False), det, box["kind"])
+        if c2 is not c and op[0] in ("load", "adopt", "emptyAll"):
+            c = c2
         if c2 is not c:
             break
     return c
@@ -692,9 +759,9 @@ def descs_of(box):
     d = {}
     for op in box["ops"]:
         if len(op) > 1 and op[1] is not None and op[0] != "emptyAll":
-            if op[0] == "adopt":
+            if op[0] in ("adopt", "load"):
                 if op[1]["hold"] is not None:
-                    d[op[1]["id"]] = op[1]["hold"]
+                    d[op[1]["id"]] = op[1]
             else:
                 d[op[1]["id"]] = op[1]
     return d
@@ -710,7 +777,10 @@ def lean_run_request(box):
         elif op[0] == "emptyAll":
             ops.append(["emptyAll", bool(op[1])])
         elif op[0] == "adopt":
-            ops.append(["adopt", None if op[1]["hold"] is None else lean_operand(op[1]["hold"])])
+            ops.append(["adopt", None if op[1]["hold"] is None else lean_operand(op[1])])
+        elif op[0] == "load":
+            ops.append(["load", None if op[1]["hold"] is None else lean_operand(op[1]), op[1]["det"] == box["det"],
+                        [op[1]["rows"], op[1]["cols"]] == [box["rows"], box["cols"]]])
         else:
             ops.append([op[0], lean_operand(op[1])])
     return {"op": "run", "kind": box["kind"], "rows": box["rows"], "cols": box["cols"], "ops": ops}
@@ -806,6 +876,45 @@ def body(ck: common.Check):
                         ids[0] += 1
                         b["ops"] += [["iadd", gen_operand(rng, ids[0], kind, rows, cols, "iadd")], ["emptyAll", not reset], ["read"]]
                     boxes.append(("detector-reset", b))
+    # directed: `detector.photon = source` where the source Photon (same / other geometry) was filled validly and then had a
+    # frame with negative entries added in place; 2-D and 3-D, every detector type
+    for det in ("CCD", "CMOS", "APD", "MKID"):
+        for three in (False, True):
+            for same_geo in (True, True, False):
+                rows, cols = rng.choice([(2, 3), (3, 2), (1, 4), (3, 3)])
+                b = directed_box(rng, ids, "photon", rows, cols, rng.choice(["empty", "full"]))
+                b["det"] = det
+                b["ops"] = [op for op in b["ops"] if op[0] != "read"]
+                srows, scols = (rows, cols) if same_geo else (rows + 1, cols)
+                ids[0] += 1
+                d = {"id": ids[0], "seed": rng.randrange(10**6), "fill": "pos", "form": "ndarray", "shape": [srows, scols],
+                     "dtype": rng.choice(FLOATS)}
+                if three:
+                    d.update(form="dataarray", dims="std", coord=True, shape=[2, srows, scols])
+                src = {"id": ids[0], "skind": "photon", "rows": srows, "cols": scols, "det": rng.choice(["CCD", "CMOS", "APD"]), "hold": d,
+                       "then": dict(d, seed=rng.randrange(10**6), fill=rng.choice(["neg", "nanneg"]))}
+                b["ops"] += [["adopt", src], ["read3" if three else "read"]]
+                boxes.append(("adopt-negative", b))
+    # directed: load_detector with files of the same / another geometry / another detector type, on filled and empty buckets
+    for det in ("CCD", "CMOS", "APD", "MKID"):
+        for kind in ("photon", "photon3", "pixel", "signal", "image") + (("phase",) if det == "MKID" else ()):
+            for how in ("same", "geometry", "type") if (quick and kind in ("signal", "image")) is False else ("geometry",):
+                k = "photon" if kind == "photon3" else kind
+                rows, cols = rng.choice([(2, 3), (3, 2), (1, 4)])
+                b = directed_box(rng, ids, k, rows, cols, rng.choice(["full", "full", "empty"]))
+                b["det"] = det
+                b["ops"] = [op for op in b["ops"] if op[0] != "read"]
+                ids[0] += 1
+                frows, fcols = (rows, cols) if how != "geometry" else (rows, cols + 1)
+                fdet = det if how != "type" else {"CCD": "CMOS", "CMOS": "CCD", "APD": "CCD", "MKID": "CCD"}[det]
+                d = {"id": ids[0], "seed": rng.randrange(10**6), "fill": "pos", "form": "ndarray", "shape": [frows, fcols],
+                     "dtype": "uint16" if k == "image" else "float64"}
+                if kind == "photon3":
+                    d.update(form="dataarray", dims="std", coord=True, shape=[2, frows, fcols])
+                hold = None if (k == "phase" and fdet != "MKID") else d
+                b["ops"] += [["load", {"id": ids[0], "skind": k, "rows": frows, "cols": fcols, "det": fdet, "hold": hold}],
+                             ["read3" if kind == "photon3" and how == "same" else "read"], ["shape"]]
+                boxes.append(("load", b))
     # directed: photon assignments of arrays holding BOTH NaN and negative counts, every float type, every assignment path
     for dt in FLOATS:
         for path in ("set", "iadd", "plus", "set3", "iadd3", "plus3", "adopt", "set-after-full", "set3-after-full"):
@@ -879,7 +988,7 @@ def body(ck: common.Check):
         nan_skip = v is None and (impl["ab"] is not eq_expected(va, vb))
         if ans["spec"] is not eq_expected(va, vb) and not nan_skip:
             raise common.InfraError(f"python eq oracle and Lean eqSpecB disagree on {case}")
-    ck.rule = ("operation histories (1-12 ops: .array=, .array_3d=, update, +=/+, detector.<bucket> = <container of another detector>, empty, detector.empty(reset=True/False), .array, .array_3d, .dtype, .shape) on the real "
+    ck.rule = ("operation histories (1-12 ops: .array=, .array_3d=, update, +=/+, detector.<bucket> = <container of another detector, possibly modified in place after it was filled>, load_detector(detector, <file of a detector of the same/another type and geometry>), empty, detector.empty(reset=True/False), .array, .array_3d, .dtype, .shape) on the real "
                "photon/pixel/signal/image/phase containers of CCD/CMOS/MKID/APD detectors of 1..5 x 1..5 pixels; operands: right/wrong "
                "shapes (transposed, +1, 1-D, 3-D, 0-d, broadcastable), all 19 numpy dtypes incl. object/str/datetime, lists, numpy and "
                "Python scalars, None, DataArrays with right/wrong dims/coords, negative/NaN/NaN-and-negative/huge/zero fills; photon assignments of NaN-and-negative arrays by every path (set, set3, +=/+ on empty, adopt) x float16/32/64 directed; detector.empty(True/False) on full / empty / NaN-holding buckets of every kind x CCD/CMOS/APD/MKID with non-square shapes followed by reads, directed; plus every dtype x "
